@@ -78,6 +78,22 @@ func WriteNDJSON(path string, recs []any) error {
 	enc := json.NewEncoder(w)
 	enc.SetEscapeHTML(false)
 	for _, r := range recs {
+		// TLC's Json module rejects JSON null: nil slices become empty arrays
+		b, err := json.Marshal(r)
+		if err != nil {
+			f.Close()
+			return err
+		}
+		if bytes.Contains(b, []byte("null")) {
+			var g any
+			d := json.NewDecoder(bytes.NewReader(b))
+			d.UseNumber()
+			if err := d.Decode(&g); err != nil {
+				f.Close()
+				return err
+			}
+			r = denull(g)
+		}
 		if err := enc.Encode(r); err != nil {
 			f.Close()
 			return err
@@ -599,4 +615,22 @@ func (c *Ctx) JudgeTrace(res *Result, module string, recs []any) ([]map[string]a
 		os.Remove(trace)
 	}
 	return vs[1:], nil
+}
+
+func denull(v any) any {
+	switch x := v.(type) {
+	case nil:
+		return []any{}
+	case map[string]any:
+		for k, e := range x {
+			x[k] = denull(e)
+		}
+		return x
+	case []any:
+		for i, e := range x {
+			x[i] = denull(e)
+		}
+		return x
+	}
+	return v
 }
